@@ -227,9 +227,9 @@ def type_bounds(t):
 def chunks(l, n):
     return [l[i:i + n] for i in range(0, len(l), n)]
 
-def run_shards(exe, drv, cmds, work, jobs=8):
+def run_shards(exe, drv, cmds, work, jobs=8, one_per_process=False):
     """run implementation, model and spec on the command list; returns {id: (impl, model, spec)}"""
-    nsh = max(1, min(jobs, (len(cmds) + 199) // 200))
+    nsh = len(cmds) if one_per_process else max(1, min(jobs, (len(cmds) + 199) // 200))
     shards = [cmds[i::nsh] for i in range(nsh)]
     def one(k):
         d = os.path.join(work, 'sh%d' % k)
@@ -246,7 +246,12 @@ def run_shards(exe, drv, cmds, work, jobs=8):
     res = {}
     problems = []
     for k, (rc1, o1, rc2, o2, rc3, o3) in enumerate(outs):
-        if rc1 != 0: problems.append('harness shard %d rc=%d: %s' % (k, rc1, o1[-400:]))
+        if rc1 != 0 and one_per_process:
+            cid = shards[k][0].split()[1]
+            m_ = re.search(r'Assertion[^\n]*|Signal: [^\n]*', o1)
+            res.setdefault(cid, [None, None, None])[0] = ['CRASH', str(rc1), (m_.group(0) if m_ else o1[-200:]).replace(' ', '_')]
+            o1 = ''
+        elif rc1 != 0: problems.append('harness shard %d rc=%d: %s' % (k, rc1, o1[-400:]))
         if rc2 != 0: problems.append('model driver shard %d rc=%d: %s' % (k, rc2, o2[-400:]))
         if rc3 != 0: problems.append('spec driver shard %d rc=%d: %s' % (k, rc3, o3[-400:]))
         for which, o in ((0, o1), (1, o2), (2, o3)):
@@ -389,12 +394,18 @@ class Gen:
                     l = [65, 0, 127, 1] if (xi == 10 or ii == 11) else [1, 2]
                     cs = ' '.join(str(c) for c in l)
                     for fl in (0, 2):
+                        # the flexible API with a mismatching MPI_CHAR/numeric buffer type is run in a process of its own
+                        # (an abort of the library must not take the other cases with it); a sample of the pairs suffices
+                        iso = (fl == 2 and (xi == 10) != (ii == 11))
+                        if iso and not ((xi == 10 and ii in (0, 4, 8)) or (ii == 11 and xi in (0, 4, 7, 9))):
+                            continue
                         self.add('V %%s %d %d %d %d 0 0 %d %s' % (fmt, xi, ii, fl, len(l), cs),
-                                 dict(api='var', d='put', fmt=fmt, xi=xi, ii=ii, fill=None, codes=l, kind='text', flav=fl))
+                                 dict(api='var', d='put', fmt=fmt, xi=xi, ii=ii, fill=None, codes=l, kind='text', flav=fl, isolate=iso))
                         self.add('G %%s %d %d %d %d %d %s' % (fmt, xi, ii, fl, len(l), cs),
-                                 dict(api='var', d='get', fmt=fmt, xi=xi, ii=ii, fill=None, codes=l, kind='text', flav=fl))
-                    self.add('A %%s %d %d %d %d %s' % (fmt, xi, ii, len(l), cs),
-                             dict(api='att', d='put', fmt=fmt, xi=xi, ii=ii, fill=None, codes=l, kind='text'))
+                                 dict(api='var', d='get', fmt=fmt, xi=xi, ii=ii, fill=None, codes=l, kind='text', flav=fl, isolate=iso))
+                    if not (ii == 11 and xi != 10):     # ncmpi_put_att_text has no type argument: always NC_CHAR
+                        self.add('A %%s %d %d %d %d %s' % (fmt, xi, ii, len(l), cs),
+                                 dict(api='att', d='put', fmt=fmt, xi=xi, ii=ii, fill=None, codes=l, kind='text'))
                     self.add('B %%s %d %d %d %d %s' % (fmt, xi, ii, len(l), cs),
                              dict(api='att', d='get', fmt=fmt, xi=xi, ii=ii, fill=None, codes=l, kind='text'))
                     self.dist['echar_calls'] += 6
@@ -515,7 +526,13 @@ def run(ctx):
     g.gen_leaf()
     work = C.scratch('c09.')
     t0 = time.time()
-    res, problems = run_shards(exe, drv, g.cmds, work)
+    iso_ids = {cid for cid, m in g.meta.items() if m.get('isolate')}
+    normal = [c for c in g.cmds if c.split()[1] not in iso_ids]
+    isolated = [c for c in g.cmds if c.split()[1] in iso_ids]
+    res, problems = run_shards(exe, drv, normal, work)
+    if isolated:
+        res2, problems2 = run_shards(exe, drv, isolated, os.path.join(work, 'iso'), jobs=8, one_per_process=True)
+        res.update(res2); problems += problems2
     ctx.cov['run_wall_s'] = round(time.time() - t0, 1)
 
     fail_oracle = {}       # key -> list of (meta, detail)
@@ -529,6 +546,11 @@ def run(ctx):
             fail_internal.append('no result for %s: %s' % (cid, m['cmd'][:120]))
             continue
         impl, mod, spc = r
+        if impl[0] == 'CRASH':
+            ctx.count('%s %s flexible API, NC_%s with %s buffer: process died' % (m['api'], m['d'], (XT + ['CHAR'])[m['xi']], (IT + ['text'])[m['ii']]), nontrivial=True)
+            fail_oracle.setdefault('echar:flexible-api:%s' % m['d'], []).append(
+                (m, 'expected NC_ECHAR, the process died: exit %s %s' % (impl[1], impl[2][:200])))
+            continue
         if impl[0] == 'HARNESS-ERROR':
             fail_internal.append('harness error %s: %s' % (' '.join(impl[:4]), m['cmd'][:120]))
             continue
@@ -587,9 +609,14 @@ def run(ctx):
                 js = bad_elems or [j for j, (k, _) in enumerate(out_e) if k == 'range'] or [0]
                 for j in js[:3]:
                     vc = value_class(S, src[j])
-                    key = '%s:%s->%s:%s' % (d, ('NC_' + XT[xi]) if d == 'get' else IT[ii], IT[ii] if d == 'get' else ('NC_' + XT[xi]), vc)
-                    if m['api'] == 'att' and ii == 6 and d == 'get' and vc in ('int', 'finite'):
-                        key = 'get_att:long:fill'
+                    sname = ('NC_' + XT[xi]) if d == 'get' else IT[ii]
+                    dname = IT[ii] if d == 'get' else ('NC_' + XT[xi])
+                    if m['api'] == 'att' and ii == 6 and d == 'get' and out_e[j][0] == 'range' and codes_i[j] == FILL['Longlong']:
+                        key = 'get_att:long:fill'          # ncmpi_get_att_long uses the long long functions: NC_FILL_INT64, not NC_FILL_INT
+                    elif vc == 'NaN' and not isflt(D):
+                        key = '%s:%s->integer:NaN' % (d, sname)
+                    else:
+                        key = '%s:%s->%s:%s' % (d, sname, dname, vc)
                     fail_oracle.setdefault(key, []).append((m, 'element %d source code %d: expected %s status %d, implementation stored %d status %d'
                                                             % (j, src[j], out_e[j], st_e, codes_i[j], st_i)))
         # -- MODEL vs implementation
